@@ -24,8 +24,9 @@ RULE = ("texts of grammar G (DESIGN section 3): (1) model programs of vf/gen.py 
         "subprocess after exceeding the 5 s in-process watchdog (runs classified slow-but-finite are counted as inconclusive). "
         "Non-trivial: >= 3 non-empty lines and the text reaches the compiler (no critical parse error); distinct = distinct text.")
 ASSUMPTIONS = ["termination is decided as 'within 60 s on bounded inputs'; a 5 s watchdog hit alone is never a violation",
-               "pdpy11's running time doubles with every address-dependent padding directive (.even/.odd/.align), 17 take 17 s: texts "
-               "with more than 10 such lines that time out are classified slow-finite",
+               "pdpy11's running time doubles with every executed address-dependent padding directive (.even/.odd/.align), 17 take 17 s: "
+               "texts that execute more than 10 of them (occurrences weighted by the enclosing .repeat counts) and time out inside the "
+               "lazy-evaluation code are classified slow-finite",
                "crashes are bucketed by (exception type, innermost pdpy11 frame)"]
 
 PRACTICE = os.path.join(core.REPO, "tests", "practice")
@@ -139,6 +140,32 @@ def probe(files, charset="bk", timeout=5.0):
 
 
 PADS = re.compile(r"\.(even|odd|align)\b", re.I)
+REPEAT_OPEN = re.compile(r"\.repeat\s+([^{\n]*)\{", re.I)
+
+
+def executed_pads(text):
+    """estimate of how many address-dependent padding statements the assembler executes: occurrences weighted by the counts of
+    the enclosing .repeat blocks (a symbolic count is taken as 4, the generator's maximum)"""
+    total, stack, i = 0, [], 0
+    events = sorted([(m.start(), "open", m) for m in REPEAT_OPEN.finditer(text)] + [(m.start(), "pad", m) for m in PADS.finditer(text)]
+                    + [(j, "close", None) for j, ch in enumerate(text) if ch == "}"], key=lambda t: t[0])
+    for _, kind, m in events:
+        if kind == "open":
+            arg = m.group(1).strip()
+            try:
+                n = int(arg[:-1], 10) if arg.endswith(".") else int(arg, 8)
+            except ValueError:
+                n = 4
+            stack.append(max(1, min(n, 64)))
+        elif kind == "close":
+            if stack:
+                stack.pop()
+        else:
+            w = 1
+            for n in stack:
+                w *= n
+            total += w
+    return total
 
 
 def classify(files, outs, charset="bk"):
@@ -157,7 +184,7 @@ def classify(files, outs, charset="bk"):
         stack = next((o.exc[2] for o in outs if o.kind == "timeout" and o.exc and isinstance(o.exc[2], list)), [])
         in_repeat = ("metacommands.py", "repeat") in stack          # a finite range() loop is running
         in_lazy = any(f == "deferred.py" for f, _ in stack[-6:])
-        if in_repeat or (in_lazy and len(PADS.findall(text)) > 10):
+        if in_repeat or (in_lazy and executed_pads(text) > 10):
             return None, "inconclusive-slow-finite"
         # confirm in a fresh process with a generous limit - once per shard: every further watchdog hit behind a confirmed hang is
         # only counted (re-confirming each one, also while shrinking, would cost more than a minute apiece)
